@@ -781,4 +781,81 @@ theorem segment_connect_cases (cfg : Cfg) (a : A) (rd : Read) (evs : List Ev) (m
     rw [hseg, he]
     rfl
 
+
+/-! ## `checkData`: the C01 clauses pass when the copies are as the property says -/
+
+/-- the data frames among the events -/
+def dcopies (evs : List Ev) : List (Nat × Nat × Frame) :=
+  (sends evs).filter (fun p => match p.2.2.body with | .data _ => true | _ => false)
+
+/-- the copies of input frame `k` -/
+def dmine (k : Nat) (evs : List Ev) : List (Nat × Nat × Frame) := (dcopies evs).filter (fun p => p.2.2.body == .data k)
+
+def inRangeH (cfg : Cfg) (h : Hdr) : Bool :=
+  !(h.dest < 0 || h.dest > cfg.maxModules || h.destHost < 0 || h.destHost > cfg.maxHosts)
+
+/-- the subscribers the published frame has to reach -/
+def dexpected (cfg : Cfg) (a : A) (h : Hdr) : List AMod :=
+  if inRangeH cfg h then
+    (a.mods.filter (fun m => m.alive && subscribed m h.mtype)).filter (fun m => ready a m && destOK h m && !a.failing m.uid)
+  else []
+
+theorem checkData_c01 (cfg : Cfg) (a : A) (h : Hdr) (evs : List Ev)
+    (c1 : (dcopies evs).length = (dmine h.k evs).length)
+    (c2 : ∀ p ∈ dmine h.k evs, p.2.2.mtype = h.mtype ∧ p.2.2.src = h.src ∧ p.2.2.dest = h.dest ∧
+      p.2.2.destHost = h.destHost ∧ (p.2.2.nbytes : Int) = h.nbytes)
+    (c3 : h.mtype ≠ cfg.allTypes → ∀ m ∈ dexpected cfg a h, ((dmine h.k evs).filter (·.1 == m.uid)).length = 1)
+    (c4 : h.mtype ≠ cfg.allTypes → ∀ p ∈ dmine h.k evs, (dexpected cfg a h).any (·.uid == p.1) = true) :
+    ErrExt ["C14"] a (checkData cfg a h evs) := by
+  unfold checkData
+  extract_lets t inRange copies mine a1 a2 subs expected a3 a4 hears undeliv observers a5
+  have hcop : copies = dcopies evs := rfl
+  have hmine : mine = dmine h.k evs := rfl
+  have e1 : a1 = a := by
+    show a.chk _ _ _ = a
+    exact chk_of _ _ _ _ (by rw [hcop, hmine, c1]; exact beq_self_eq_true _)
+  have e2 : a2 = a := by
+    show a1.chk _ _ _ = a
+    rw [e1]
+    refine chk_of _ _ _ _ ?_
+    rw [List.all_eq_true]
+    intro p hp
+    obtain ⟨q1, q2, q3, q4, q5⟩ := c2 p (by rw [← hmine]; exact hp)
+    simp [t, q1, q2, q3, q4, q5]
+  split
+  · rw [e2]; exact ErrExt.refl _ _
+  · rename_i hta
+    have hta' : h.mtype ≠ cfg.allTypes := by simpa [t] using hta
+    have hexp : expected = dexpected cfg a h := by
+      show (if inRange = true then _ else []) = _
+      unfold dexpected
+      have : inRange = inRangeH cfg h := rfl
+      rw [this]
+      split
+      · show List.filter _ (List.filter _ a2.mods) = _
+        rw [e2]
+      · rfl
+    have e3 : a3 = a := by
+      show List.foldl _ a2 expected = a
+      rw [e2]
+      apply foldl_fix
+      intro m hm
+      refine chk_of _ _ _ _ ?_
+      have := c3 hta' m (by rw [← hexp]; exact hm)
+      rw [hmine, this]; rfl
+    have e4 : a4 = a := by
+      show List.foldl _ a3 mine = a
+      rw [e3]
+      apply foldl_fix
+      intro p hp
+      refine chk_of _ _ _ _ ?_
+      rw [hexp]
+      exact c4 hta' p (by rw [← hmine]; exact hp)
+    split
+    · rw [e4]; exact ErrExt.refl _ _
+    · show ErrExt _ a a5
+      have : a5 = List.foldl _ a4 observers := rfl
+      rw [this, e4]
+      exact errExt_foldl _ _ (fun x y => errExt_foldl _ _ (fun x' y' => errExt_chk _ _ _ _ _ (by simp)) _ _) _ _
+
 end Pyrtma.Mgr.Spec
